@@ -25,6 +25,7 @@ type Adv struct {
 	Version int  // index into the adversary's enabled transactions of the ledger channel (0..latest-1)
 	RootCur bool // target a sub-channel: the ledger channel's CURRENT state with outdated sub-channel states
 	SubOld  bool // sub-channels: oldest state instead of a random earlier one
+	SubBack int  // > 0: sub-channels outdated by exactly this many versions (a recent state), if there are that many
 	Salt    int64
 }
 
@@ -135,8 +136,22 @@ func GenScenario(r *rand.Rand, c04 bool) *Scenario {
 		s.Depth2 = true
 		openSub(nsub, 1+r.Intn(nsub))
 	}
+	// C04, a sub-channel in heavy use: its version overtakes, equals or stays below the parent's; the adversary
+	// registers the tree with an outdated state of it while a further update of it is in flight
+	busy := -1
+	if c04 && nsub > 0 && r.Intn(3) == 0 {
+		k := open[r.Intn(len(open))]
+		for i := r.Intn(4); i > 0; i-- {
+			s.Steps = append(s.Steps, pay())
+		}
+		for i := 1 + r.Intn(9); i > 0; i-- {
+			s.Steps = append(s.Steps, Step{Kind: "paysub", By: r.Intn(2), Amt: amt(), Accept: true, Sub: k})
+		}
+		busy = len(s.Steps)
+		s.Steps = append(s.Steps, Step{Kind: "paysub", By: r.Intn(2), Amt: amt(), Accept: true, Sub: k})
+	}
 	// activity in the ledger channel and in every open sub-channel, accepted and rejected updates, ticks
-	for i := 1 + nsub + r.Intn(4); i > 0; i-- {
+	for i := 1 + nsub + r.Intn(4); i > 0 && busy < 0; i-- {
 		switch k := r.Intn(8); {
 		case k < 4 && len(open) > 0:
 			s.Steps = append(s.Steps, Step{Kind: "paysub", By: r.Intn(2), Amt: amt(), Accept: r.Intn(5) != 0, Sub: open[r.Intn(len(open))]})
@@ -147,7 +162,11 @@ func GenScenario(r *rand.Rand, c04 bool) *Scenario {
 		}
 	}
 	// some sub-channels are closed cooperatively (settled into the parent), the others stay open
-	switch r.Intn(3) {
+	closing := r.Intn(3)
+	if busy >= 0 {
+		closing = 0
+	}
+	switch closing {
 	case 0: // all stay open: the settlement is a dispute over the whole tree
 	case 1, 2: // close some or all of them, inner channels first (a channel with an open child cannot be closed)
 		all := r.Intn(2) == 0
@@ -161,7 +180,11 @@ func GenScenario(r *rand.Rand, c04 bool) *Scenario {
 					childOpen = childOpen || (parent[j] == k+1 && !closed[j])
 				}
 				if (all || r.Intn(2) == 0) && !childOpen {
-					s.Steps = append(s.Steps, Step{Kind: "closesub", By: r.Intn(2), Sub: k})
+					cs := Step{Kind: "closesub", By: r.Intn(2), Sub: k}
+					if r.Intn(2) == 0 { // the final update is also a payment (by either party)
+						cs.Amt = amt()
+					}
+					s.Steps = append(s.Steps, cs)
 					closed[k] = true
 					if r.Intn(3) == 0 {
 						s.Steps = append(s.Steps, pay())
@@ -177,7 +200,11 @@ func GenScenario(r *rand.Rand, c04 bool) *Scenario {
 		}
 	}
 	if len(open) == 0 && r.Intn(3) == 0 {
-		s.Steps = append(s.Steps, Step{Kind: "final", By: r.Intn(2)})
+		fs := Step{Kind: "final", By: r.Intn(2)}
+		if r.Intn(2) == 0 {
+			fs.Amt = amt()
+		}
+		s.Steps = append(s.Steps, fs)
 	}
 	if c04 {
 		// the adversary registers an old state: between two steps or during an update
@@ -194,7 +221,14 @@ func GenScenario(r *rand.Rand, c04 bool) *Scenario {
 			pos = lastSub + r.Intn(len(s.Steps)-lastSub+1)
 		}
 		placed := false
-		if r.Intn(2) == 0 {
+		if busy >= 0 {
+			adv.RootCur = true
+			if r.Intn(4) != 0 {
+				adv.SubBack = 1 + r.Intn(3) // outdated by 1..3: for a sub-channel in use still above the parent's version
+			}
+			s.Steps[busy].Adv = adv
+			placed = true
+		} else if r.Intn(2) == 0 {
 			for j := pos; j < len(s.Steps); j++ {
 				if s.Steps[j].Kind == "pay" || s.Steps[j].Kind == "paysub" {
 					s.Steps[j].Adv = adv
@@ -248,18 +282,19 @@ func GenScenario(r *rand.Rand, c04 bool) *Scenario {
 // ---------- execution ----------
 
 type Run struct {
-	Sc      *Scenario
-	Env     *Env
-	Root    *channel.Params
-	Before  [][]*big.Int // ledger balances [asset][party] before opening
-	Opened  [][]*big.Int // after opening
-	After   [][]*big.Int // at the end
-	Settled [2]bool      // Settle returned nil
-	SetErr  [2]string
-	Subs    []channel.ID
-	Notes   []string
-	AdvDone []AdvCall
-	InitAcc string
+	Sc       *Scenario
+	Env      *Env
+	Root     *channel.Params
+	Before   [][]*big.Int // ledger balances [asset][party] before opening
+	Opened   [][]*big.Int // after opening
+	After    [][]*big.Int // at the end
+	Settled  [2]bool      // Settle returned nil
+	SetErr   [2]string
+	Subs     []channel.ID
+	Notes    []string
+	AdvDone  []AdvCall
+	CloseErr []string // cooperative settlements of sub-channels that failed
+	InitAcc  string
 }
 
 type AdvCall struct {
@@ -420,7 +455,13 @@ steps:
 		case "final":
 			st.Accept = true
 			if len(root[st.By].State().Locked) == 0 { // never with locked funds (a sub-channel that could not be closed)
-				update(root, st, func(s *channel.State) { s.IsFinal = true })
+				amt, payer := st.Amt, r.idxOf(st.By)
+				update(root, st, func(s *channel.State) {
+					if amt != nil {
+						r.transfer(s, payer, amt)
+					}
+					s.IsFinal = true
+				})
 			}
 		case "tick":
 			e.TickN(st.N)
@@ -493,13 +534,20 @@ steps:
 			st.Accept = true
 			// go-perun's usage: the party that proposed the sub-channel (index 0 in it) sends the final update;
 			// the proposee registers the expected parent update when it accepts that final state
+			payer := int(ch[st.By].Idx()) // the drawn party pays in the final update (nobody if Amt is nil)
 			for _, p := range e.P {
 				if ch[p.I].Idx() == 0 {
 					st.By = p.I
 				}
 			}
 			if !ch[st.By].State().IsFinal {
-				update(ch, st, func(s *channel.State) { s.IsFinal = true })
+				amt := st.Amt
+				update(ch, st, func(s *channel.State) {
+					if amt != nil {
+						r.transfer(s, payer, amt)
+					}
+					s.IsFinal = true
+				})
 			}
 			// both sides settle the sub-channel into the parent concurrently
 			var wg sync.WaitGroup
@@ -517,6 +565,8 @@ steps:
 			r.note("closesub %d: %v / %v", st.Sub, errs[0], errs[1])
 			if errs[0] == nil && errs[1] == nil {
 				delete(subs, st.Sub)
+			} else {
+				r.CloseErr = append(r.CloseErr, fmt.Sprintf("sub-channel %d: %v / %v", st.Sub, errs[0], errs[1]))
 			}
 		}
 	}
@@ -565,7 +615,10 @@ func (r *Run) adversary(adv *Adv) {
 			k := 0
 			if len(st) > 1 {
 				outdated = true
-				if !adv.SubOld {
+				switch {
+				case adv.SubBack > 0 && len(st)-1-adv.SubBack >= 0:
+					k = len(st) - 1 - adv.SubBack
+				case !adv.SubOld:
 					k = rr.Intn(len(st) - 1)
 				}
 			}
